@@ -8,30 +8,67 @@
                  the code already evaluates while building (`next_if_one` when the `size_hint`
                  upper bound is 1, `collect_if_once` on path index filters, the first `next()`
                  of the `//` arm, `first`, `input`).
+    * round 2: `reduce`/`foreach` as `fold` (explicit stack) over the shared lazily memoised list of
+                 `xs` (`It.fold`, against the reference's depth-first agenda `Th.fold`), definitions
+                 with filter arguments (closures `Bind.fn`) and simple `$`-arguments (`callA`,
+                 `tcallA`, `fvar`), `[f]` (`collect()` at construction), `l op r` (`cartesian`).
     * `World`  — unread inputs of the shared input stream + log of the values read.
     * `TakeS D k th w xs w'` / `TakeI D k it w xs w'` — a consumer takes `k` items: it gets `xs`
                  and stops in world `w'` (every pull terminates with some finite fuel).
   `D` is the list of top-level definitions (`call i`), `c` the context, `v` the input value.
 -/
-import JaqVerif.Lemmas.C03Main
+import JaqVerif.Lemmas.C03Gen
 
 namespace Jaq.C03
 variable {D : List T}
 
-/-- hypothesis of the main theorem: every path index filter `…[i]` of the program and of the
-definitions is `.`, a literal or a variable (no effects, one output) -/
+/-- hypothesis of the main theorem (`T.pureIdx`, for the program and for every definition):
+every path index filter `…[i]` is `.`, a literal or a variable (no effects, one output; see
+F-03); every `$`-argument of a call is such a simple term (the harness binds other `$`-arguments
+with `as` first); the source `xs` of every `reduce`/`foreach` is one whose *construction* touches
+nothing (`T.lazySrc`: `inputs`, `range(…)`, `.`, literals, `(x, anything)`, `(inputs | anything)`,
+`limit(n; such)`, `try such catch anything`) — the manual does not say whether starting `xs` or
+`init` touches the input stream first; `init`, `update` and the projection are unrestricted. -/
 def PureIndexFilters (D : List T) (t : T) : Prop := t.pureIdx = true ∧ DPure D
+
+/-- the closures bound in the context the program starts in satisfy the same condition
+(trivially true for a context without filter arguments, e.g. the top-level context) -/
+def PureContext (c : Ctx) : Prop := c.pure = true
 
 /-- **Main theorem (strong form).**  For every program of the fragment
 `. lit empty error halt , | as if // and or input inputs first limit skip try label/break
-call/recursion range f[i]`, every context, input, world and every `k ≥ 1`: whatever a consumer
+call/recursion range f[i]` and (round 2) `reduce foreach [f] + - *`, definitions with filter
+arguments and `$`-arguments (closures; `repeat recurse while until` as in `defs.jq`), every
+context, input, world and every `k ≥ 1`: whatever a consumer
 of `k` items obtains from the left-to-right reference — the items, exceptions included, **and the
 world it stops in (the same inputs left unread, the same effect log)** — a consumer of `k` items
-of the interpreter's iterator obtains too, each pull needing only finite fuel. -/
-theorem take_prefix {t : T} (hP : PureIndexFilters D t) (c : Ctx) (v : Val) (w : World) (k : Nat)
+of the interpreter's iterator obtains too, each pull needing only finite fuel.
+(Round 1 stated this without `PureContext`: contexts had no closures then, for those it holds
+by `pureContext_of_values`.) -/
+theorem take_prefix {t : T} (hP : PureIndexFilters D t) (c : Ctx) (hc : PureContext c) (v : Val) (w : World) (k : Nat)
     (xs : List Item) (w' : World) (h : TakeS D (k + 1) (.run t c v) w xs w') :
     ∃ m it w0, mk D m t c v w = some (it, w0) ∧ TakeI D (k + 1) it w0 xs w' :=
-  take_prefix_core hP.2 hP.1 h
+  take_prefix_core hP.2 hP.1 hc h
+
+/-- a context that binds only variables and labels (every context of round 1) is pure -/
+theorem pureContext_of_values (c : Ctx) (h : ∀ b ∈ c.env, ∀ t e, b ≠ Bind.fn t e) : PureContext c := by
+  obtain ⟨env, l⟩ := c
+  simp only [PureContext, Ctx.pure_mk]
+  induction env with
+  | nil => simp
+  | cons b bs ih =>
+    simp only [Bind.pureL_cons, Bool.and_eq_true]
+    refine ⟨?_, ih (fun b' hb' => h b' (List.mem_cons_of_mem _ hb'))⟩
+    cases b with
+    | var v => simp
+    | label l => simp
+    | fn t e => exact absurd rfl (h _ (List.mem_cons_self ..) t e)
+
+/-- the main theorem for a program run from the top level (what `bin/check C03` runs) -/
+theorem take_prefix_top {t : T} (hP : PureIndexFilters D t) (v : Val) (w : World) (k : Nat)
+    (xs : List Item) (w' : World) (h : TakeS D (k + 1) (.run t ⟨[], 0⟩ v) w xs w') :
+    ∃ m it w0, mk D m t ⟨[], 0⟩ v w = some (it, w0) ∧ TakeI D (k + 1) it w0 xs w' :=
+  take_prefix hP ⟨[], 0⟩ (by simp [PureContext]) v w k xs w' h
 
 /-- what a consumer of the iterator obtains is unique (the machines are deterministic), so
 `take_prefix` describes *the* run of the interpreter -/
@@ -60,11 +97,11 @@ theorem takeI_unique : ∀ {k : Nat} {it : It} {w : World} {xs ys : List Item} {
 consumed no more inputs than the reference, and its effect log is a sub-multiset of the
 reference's log: nothing was evaluated that the left-to-right order does not reach before the
 `k`-th output. -/
-theorem take_prefix_effects {t : T} (hP : PureIndexFilters D t) (c : Ctx) (v : Val) (w : World) (k : Nat)
+theorem take_prefix_effects {t : T} (hP : PureIndexFilters D t) (c : Ctx) (hc : PureContext c) (v : Val) (w : World) (k : Nat)
     (xs : List Item) (w' : World) (h : TakeS D (k + 1) (.run t c v) w xs w') :
     ∃ m it w0 wi, mk D m t c v w = some (it, w0) ∧ TakeI D (k + 1) it w0 xs wi ∧
       wi.log.length ≤ w'.log.length ∧ (∃ l : List Eff, l.Perm wi.log ∧ l.Sublist w'.log) := by
-  obtain ⟨m, it, w0, hmk, ht⟩ := take_prefix hP c v w k xs w' h
+  obtain ⟨m, it, w0, hmk, ht⟩ := take_prefix hP c hc v w k xs w' h
   exact ⟨m, it, w0, w', hmk, ht, Nat.le_refl _, w'.log, List.Perm.refl _, List.Sublist.refl _⟩
 
 /-! ## adapter lemmas -/
@@ -155,9 +192,10 @@ theorem range_zero_step_ref (a b : Int) (hab : a ≠ b) (w : World) :
     rw [Int.add_zero] at this
     exact .yield this ih
 
-/-- … and so does the interpreter's iterator (`infinite_generators_incremental` for `range`):
+/-- … and so does the interpreter's iterator (the `range` part of
+`infinite_generators_incremental`; this was the whole theorem of that name in round 1):
 for every `k` there is a fuel for building it and each of the `k + 1` pulls terminates. -/
-theorem infinite_generators_incremental (a b : Int) (hab : a ≠ b) (c : Ctx) (v : Val) (w : World) (k : Nat) :
+theorem range_zero_step_incremental (a b : Int) (hab : a ≠ b) (c : Ctx) (v : Val) (w : World) (k : Nat) :
     ∃ m it w0, mk D m (.range a b 0) c v w = some (it, w0) ∧
       TakeI D (k + 1) it w0 (List.replicate (k + 1) (.ok (intVal a))) w := by
   have hD : PureIndexFilters ([] : List T) (.range a b 0) := ⟨rfl, fun i body h => by simp at h⟩
@@ -183,12 +221,178 @@ theorem infinite_generators_incremental (a b : Int) (hab : a ≠ b) (c : Ctx) (v
 or not (`repeat`, `recurse`, recursive definitions through `call`/`tcall`) — the interpreter
 delivers them one by one, each pull with finite fuel.  (This is `take_prefix`; restated for
 definitions-based generators.) -/
-theorem recursive_generators_incremental {i : Nat} (hD : DPure D) (c : Ctx) (v : Val) (w : World) (k : Nat)
+theorem recursive_generators_incremental {i : Nat} (hD : DPure D) (c : Ctx) (hc : PureContext c) (v : Val) (w : World) (k : Nat)
     (xs : List Item) (w' : World) (h : TakeS D (k + 1) (.run (.call i) c v) w xs w') :
     ∃ m it w0, mk D m (.call i) c v w = some (it, w0) ∧ TakeI D (k + 1) it w0 xs w' :=
-  take_prefix ⟨rfl, hD⟩ c v w k xs w' h
+  take_prefix ⟨rfl, hD⟩ c hc v w k xs w' h
+
+/-! ## round 2: the lazily memoised list under `reduce`/`foreach`, `FlatMap`, `collect_if_once` -/
+
+/-- `rc_lazy_list`: a node that is in the list already is *read*; the iterator under the list is
+not pulled — whatever pulling it would do (`nextF` is arbitrary) — and the world is the same. -/
+theorem lazyList_memo_no_pull (mkF : T → Ctx → Val → World → MkRes) (nextF : It → World → NextRes)
+    (kind : FoldKind) (upd : T) (ctx : Ctx) (cells : List Item) (src : It) (ended : Bool) (ini : It) (pos : Nat) (y : Val)
+    (rest : It) (cell : Item) (w : World) (hc : cells[pos]? = some cell) :
+    nextStep mkF nextF (.fold kind upd ctx cells src ended ini (.fInp pos y rest)) w =
+      foldCell mkF nextF kind upd ctx cells src ended ini pos y rest cell w := by
+  simp only [nextStep, hc]
+
+/-- `rc_lazy_list`: a node that is not yet in the list is forced by **exactly one** pull of the
+iterator under the list: the fold goes on in the world right after that pull, with the list
+longer by that one node and the iterator's residual stored for the next node. -/
+theorem lazyList_forces_one_node (mkF : T → Ctx → Val → World → MkRes) (nextF : It → World → NextRes)
+    (kind : FoldKind) (upd : T) (ctx : Ctx) (cells : List Item) (src : It) (ini : It) (pos : Nat) (y : Val)
+    (rest : It) (w : World) (x : Item) (src' : It) (w1 : World) (hc : cells[pos]? = none)
+    (h : nextF src w = some (some x, src', w1)) :
+    nextStep mkF nextF (.fold kind upd ctx cells src false ini (.fInp pos y rest)) w =
+      foldCell mkF nextF kind upd ctx (cells ++ [x]) src' false ini pos y rest x w1 := by
+  simp only [nextStep, hc, h, Bool.false_eq_true, if_false]
+
+/-- … and a node of the list starts `update` for that element and nothing else: the list's
+iterator does not occur in what runs next (`Fold::Output` on top: only `ys` is pulled). -/
+theorem lazyList_node_starts_update {upd ctx cells src ini rest} {kind : FoldKind} {ended : Bool} {pos : Nat} {y xv : Val}
+    {w : World} {ys : It} {w2 : World} {res} (hm : MkR D upd (ctx.consVar xv) y w (ys, w2))
+    (h : NextR D (.fold kind upd ctx cells src ended ini (.fOut (pos + 1) xv ys rest)) w2 res) :
+    FoldCellR D kind upd ctx cells src ended ini pos y rest (.ok xv) w res := foldCellR_ok rfl hm h
+
+/-- `FlatMap`: while the current inner iterator delivers, the source is not touched … -/
+theorem flatMap_src_untouched_while_cur_yields {cur : It} {w : World} {y : Item} {cur' : It} {w1 : World} (src : It) (k : K)
+    (h : NextR D cur w (some y, cur', w1)) : NextR D (.flat src k cur) w (some y, .flat src k cur', w1) :=
+  nextR_flat_yield src k h
+
+/-- … and when it is exhausted the source is pulled exactly once; the continuation is built in
+the world right after that pull. -/
+theorem flatMap_pulls_src_once_per_exhaustion {cur : It} {w : World} {c' : It} {w1 : World} {src : It} {x : Item} {y : Val}
+    {s' : It} {w2 : World} {k : K} {c : It} {w3 : World} {res}
+    (h : NextR D cur w (none, c', w1)) (hs : NextR D src w1 (some x, s', w2)) (hx : x.val? = some y)
+    (hm : MkR D (k.app y).1 (k.app y).2.1 (k.app y).2.2 w2 (c, w3)) (hn : NextR D (.flat s' k c) w3 res) :
+    NextR D (.flat src k cur) w res := nextR_flat_srcok h hs hx hm hn
+
+/-- `collect_if_once`: unless the upper bound of `size_hint` is exactly 1 the freshly built
+iterator of the index filter is dropped unpulled (whatever pulling it would do) … -/
+theorem collect_if_once_no_extra_pull (nextF : It → World → NextRes) {ia : It} (i : T) (ctx : Ctx) (v : Val) (w : World)
+    (hu : ia.upper ≠ some 1) : collectIfOnce nextF ia i ctx v w = some (.idxR i ctx v, w) := by
+  simp [collectIfOnce, hu]
+
+/-- … and when it is 1 it is pulled exactly once: the result is that item and the world right
+after that pull. -/
+theorem collect_if_once_single_pull (nextF : It → World → NextRes) {ia : It} (i : T) (ctx : Ctx) (v : Val) (w : World)
+    {x : Item} {ia' : It} {w2 : World} (hu : ia.upper = some 1) (h : nextF ia w = some (some x, ia', w2)) :
+    collectIfOnce nextF ia i ctx v w = some (.idxL x, w2) := by
+  simp only [collectIfOnce, hu, h, if_true]
+
+/-! ## round 2: `foreach` over an endless `inputs` is consumed incrementally -/
+
+/-- **`foreach inputs as $x (s; upd)` is incremental.**  Let `upd` compute a function `g` of `$x`
+and the state (one output, no effects).  With the inputs `x :: ins ++ rest` — **whatever `rest`
+is and however long** — the interpreter's iterator delivers the `|ins| + 1` running states for
+the first `|ins| + 1` inputs, each pull with finite fuel, and stops with exactly `rest` unread:
+every output costs one input and one run of `upd`. -/
+theorem foreach_inputs_incremental {upd : T} {ctx : Ctx} {g : Val → Val → Val} (hU : UpdFun D upd ctx g)
+    (hp : upd.pureIdx = true) (hD : DPure D) (hc : PureContext ctx) (v s x : Val) (ins rest log : List Val) :
+    ∃ m it w0, mk D m (.fold .foreach .inputs (.lit s) upd .id) ctx v ⟨x :: ins ++ rest, log⟩ = some (it, w0) ∧
+      TakeI D (ins.length + 1) it w0 ((scanG g s (x :: ins)).map .ok) ⟨rest, (x :: ins).reverse ++ log⟩ :=
+  take_prefix ⟨by simp [T.pureIdx, T.lazySrc, T.lazySrc1, T.lazySrc0, hp], hD⟩ ctx hc v _ _ _ _
+    (foreach_inputs_ref hU v s x ins rest log)
+
+/-- the hypothesis is satisfiable: `foreach inputs as $x (s; $x)` (`g x _ = x`) … -/
+example (ctx : Ctx) : UpdFun D (.var 0) ctx (fun x _ => x) := by
+  intro x y w
+  exact ⟨1, .nil, by rw [force_succ]; rfl, dead_nil⟩
+
+/-- … and a concrete run: three outputs for the first three of five inputs, two left unread -/
+example :
+    ((mk [] 30 (.fold .foreach .inputs (.lit (intVal 0)) (.var 0) .id) ⟨[], 0⟩ .null
+        ⟨[intVal 1, intVal 2, intVal 3, intVal 4, intVal 5], []⟩).bind fun (it, w) => takeI [] 30 3 it w) =
+    some ([.ok (intVal 1), .ok (intVal 2), .ok (intVal 3)], ⟨[intVal 4, intVal 5], [intVal 3, intVal 2, intVal 1]⟩) := by rfl
+
+/-! ## round 2: `repeat(f)` with closures, as defined in `defs.jq` -/
+
+/-- **`repeat(f)` is incremental.**  `def repeat(f): def rec: f, rec; rec;` with the filter
+argument bound as a closure: if `f` delivers `a` first (and nothing else happens), then for every
+`k` the interpreter's iterator of `repeat(f)` delivers `k + 1` times `a`, each pull with finite
+fuel, in an untouched world — whatever a consumer does afterwards. -/
+theorem repeat_incremental (hR : HasRepeat D) (hD : DPure D) {f t : T} {e : List Bind} {c : Ctx} {v : Val} {a : Item}
+    (hf : f.pureIdx = true) (hc : PureContext c) (hcl : mkClosure f c.env = .fn t e)
+    (hF : FirstOut D t e c.labels v a) (w : World) (k : Nat) :
+    ∃ m it w0, mk D m (repeatCall c.env.length f) c v w = some (it, w0) ∧
+      TakeI D (k + 1) it w0 (List.replicate (k + 1) a) w :=
+  take_prefix ⟨by simp [repeatCall, T.pureIdx, T.pureArgs, hf], hD⟩ c hc v w k _ w (repeat_ref hR hcl hF w k)
+
+/-- the hypotheses are satisfiable: `repeat(7)` from the top level -/
+example : HasRepeat [repeatRec, repeatBody] ∧ DPure [repeatRec, repeatBody] ∧
+    mkClosure (.lit (intVal 7)) [] = .fn (.lit (intVal 7)) [] ∧
+    FirstOut [repeatRec, repeatBody] (.lit (intVal 7)) [] 0 .null (.ok (intVal 7)) := by
+  refine ⟨⟨rfl, rfl⟩, ?_, rfl, fun w => ⟨1, .nil, by rw [force_succ]; rfl, dead_nil⟩⟩
+  intro i body h
+  match i with
+  | 0 => simp at h; subst h; rfl
+  | 1 => simp at h; subst h; rfl
+  | i + 2 => simp at h
+
+/-- **`recurse(f)` is incremental.**  `def recurse(f): def rec: ., (f | rec); rec;` with the
+filter argument bound as a closure: if `f` computes a function `g` (one output, nothing else
+happens), then for every `k` the interpreter's iterator of `u | recurse(f)` delivers
+`u, g u, g (g u), …` (`k + 1` values), each pull with finite fuel, in an untouched world. -/
+theorem recurse_incremental (hR : HasRecurse D) (hD : DPure D) {f t : T} {e : List Bind} {c : Ctx} {g : Val → Val}
+    (hf : f.pureIdx = true) (hc : PureContext c) (hcl : mkClosure f c.env = .fn t e)
+    (hF : FunOut D t e c.labels g) (u : Val) (w : World) (k : Nat) :
+    ∃ m it w0, mk D m (recurseCall c.env.length f) c u w = some (it, w0) ∧
+      TakeI D (k + 1) it w0 ((u :: iterG g u k).map .ok) w :=
+  take_prefix ⟨by simp [recurseCall, T.pureIdx, T.pureArgs, hf], hD⟩ c hc u w k _ w (recurse_ref hR hcl hF u w k)
+
+/-- the hypotheses are satisfiable: `recurse(.)` from the top level (`g = id`; with arithmetic:
+`recurse(. + 1)`, see the `example` at the end) -/
+example : HasRecurse [recurseRec, recurseBody] ∧ DPure [recurseRec, recurseBody] ∧
+    mkClosure .id [] = .fn .id [] ∧ FunOut [recurseRec, recurseBody] .id [] 0 (fun u => u) := by
+  refine ⟨⟨rfl, rfl⟩, ?_, rfl, fun u w => ⟨1, .nil, by rw [force_succ]; rfl, dead_nil⟩⟩
+  intro i body h
+  match i with
+  | 0 => simp at h; subst h; rfl
+  | 1 => simp at h; subst h; rfl
+  | i + 2 => simp at h
+
+/-- **Infinite generators are consumed incrementally** (replaces the round-1 theorem of this name,
+which was the first conjunct): `range($a; $b; 0)` with `$a ≠ $b`, and `repeat(f)`, `recurse(f)` as
+defined in `defs.jq` (recursive definitions with a closure, tail calls through the trampoline):
+for every `k` a finite fuel yields the first `k + 1` outputs, in an untouched world.  For
+`while`, `until` and other recursive definitions the statement is
+`recursive_generators_incremental` / `take_prefix` (whatever prefix the reference delivers, the
+interpreter delivers pull by pull). -/
+theorem infinite_generators_incremental :
+    (∀ (a b : Int), a ≠ b → ∀ (c : Ctx) (v : Val) (w : World) (k : Nat),
+      ∃ m it w0, mk D m (.range a b 0) c v w = some (it, w0) ∧
+        TakeI D (k + 1) it w0 (List.replicate (k + 1) (.ok (intVal a))) w) ∧
+    (HasRepeat D → DPure D → ∀ {f t : T} {e : List Bind} {c : Ctx} {v : Val} {a : Item},
+      f.pureIdx = true → PureContext c → mkClosure f c.env = .fn t e → FirstOut D t e c.labels v a →
+      ∀ (w : World) (k : Nat), ∃ m it w0, mk D m (repeatCall c.env.length f) c v w = some (it, w0) ∧
+        TakeI D (k + 1) it w0 (List.replicate (k + 1) a) w) ∧
+    (HasRecurse D → DPure D → ∀ {f t : T} {e : List Bind} {c : Ctx} {g : Val → Val},
+      f.pureIdx = true → PureContext c → mkClosure f c.env = .fn t e → FunOut D t e c.labels g →
+      ∀ (u : Val) (w : World) (k : Nat), ∃ m it w0, mk D m (recurseCall c.env.length f) c u w = some (it, w0) ∧
+        TakeI D (k + 1) it w0 ((u :: iterG g u k).map .ok) w) :=
+  ⟨fun a b hab c v w k => range_zero_step_incremental a b hab c v w k,
+   fun hR hD _ _ _ _ _ _ hf hc hcl hF w k => repeat_incremental hR hD hf hc hcl hF w k,
+   fun hR hD _ _ _ _ _ hf hc hcl hF u w k => recurse_incremental hR hD hf hc hcl hF u w k⟩
+
+/-! ## round 2: why the sources of `reduce`/`foreach` are restricted -/
+
+/-- `reduce input as $x (input; $x)` -/
+def foldHeaderProg : T := .fold .reduce .input .input (.var 0) .id
+
+/-- **Witness.**  The interpreter builds the iterator of `xs` first and that of `init` second
+(`input` reads while it is built): with inputs `a, b` it binds `$x = a`, the state is `b`, the
+result is `a`.  The reference starts `init` first: the state is `a`, `$x = b`, the result is `b`.
+The manual does not say which order is meant; `PureIndexFilters` therefore asks for sources
+whose construction touches nothing. -/
+theorem fold_header_order_witness (a b : Val) :
+    takeS [] 20 1 (.run foldHeaderProg ⟨[], 0⟩ .null) ⟨[a, b], []⟩ = some ([.ok b], ⟨[], [b, a]⟩) ∧
+    (∃ it, mk [] 20 foldHeaderProg ⟨[], 0⟩ .null ⟨[a, b], []⟩ = some (it, ⟨[], [b, a]⟩) ∧
+      takeI [] 20 1 it ⟨[], [b, a]⟩ = some ([.ok a], ⟨[], [b, a]⟩)) :=
+  ⟨rfl, _, rfl, rfl⟩
 
 /-! ## finding F-03: the hypothesis `PureIndexFilters` is necessary -/
+
 
 /-- `first(empty[input]), input` -/
 def f03Prog : T := .comma (.first (.index .empty .input)) .input
@@ -218,5 +422,21 @@ example : PureIndexFilters [.comma (.lit (intVal 7)) (.tcall 0)]
 example : takeS [.comma (.lit (intVal 7)) (.tcall 0)] 30 3
     (.run (.pipe (.limit 2 (.call 0)) (.comma .id .input)) ⟨[], 0⟩ .null) ⟨[intVal 1, intVal 2], []⟩ =
     some ([.ok (intVal 7), .ok (intVal 1), .ok (intVal 7)], ⟨[intVal 2], [intVal 1]⟩) := by rfl
+
+/-- the manual's example `foreach (5, 10) as $x (1; .+$x, -.)` (here `0 - .`) yields `6 16 -6 -1 9 1`:
+the reference and the interpreter's iterator agree with the manual -/
+example :
+    let upd : T := .comma (.math .add .id (.var 0)) (.math .sub (.lit (intVal 0)) .id)
+    let prog : T := .fold .foreach (.comma (.lit (intVal 5)) (.lit (intVal 10))) (.lit (intVal 1)) upd .id
+    let out := [intVal 6, intVal 16, intVal (-6), intVal (-1), intVal 9, intVal 1].map Item.ok
+    (takeS [] 60 7 (.run prog ⟨[], 0⟩ .null) ⟨[], []⟩).map (·.1) = some out ∧
+    ((mk [] 60 prog ⟨[], 0⟩ .null ⟨[], []⟩).bind fun (it, w) => (takeI [] 60 7 it w).map (·.1)) = some out := by
+  exact ⟨rfl, rfl⟩
+
+/-- `0 | limit(4; recurse(. + 1))` through the model: `0 1 2 3` -/
+example :
+    ((mk [recurseRec, recurseBody] 60 (.limit 4 (recurseCall 0 (.math .add .id (.lit (intVal 1))))) ⟨[], 0⟩ (intVal 0) ⟨[], []⟩).bind
+      fun (it, w) => (takeI [recurseRec, recurseBody] 60 5 it w).map (·.1)) =
+    some ([intVal 0, intVal 1, intVal 2, intVal 3].map Item.ok) := by rfl
 
 end Jaq.C03
